@@ -167,6 +167,11 @@ def make_scenarios(prop, tier, seed):
         if prop in ("C16", "C17"):
             sc["max_steps"] = 5      # these checks are about compilation, not about the episode
         out.append(sc)
+    if prop in ("C04", "C18"):
+        # directed: the last joker spent exactly on the no-op that finishes the episode
+        for t in gen.hesitant_stream(seed):
+            t["props"] = [prop]
+            out.append(t)
     if prop == "C06":
         # the exhaustive decision trees of tiny classic instances against an independent optimum
         for t in gen.c06_tree_stream(seed, tier):
